@@ -1,5 +1,6 @@
 import EinoV.Oracle.GraphCase
 import EinoV.Oracle.C01Chain
+import EinoV.Oracle.C01Share
 
 namespace EinoV.Oracle.C01
 open Lean EinoV
@@ -9,6 +10,7 @@ open Lean EinoV
 def handleKind (kind : String) (c : Json) : JE Json :=
   match kind with
   | "chain" => C01Chain.handle c
+  | "share" => C01Share.handle c
   | _ => throw s!"unknown case kind {kind}"
 
 /-- case: {"g": graph case, "input": "x"}  (no "kind"), or a case of an extra family -/
